@@ -72,11 +72,11 @@ def h_theorem(name):
     # this creates a closure
     return handler
 
-#   \newtheorem
+#   \newtheorem, \newtheorem* (package amsthm)
 #
 def h_newtheorem(parser, buf, mac, args, delim, pos):
-    name = parser.get_text_expanded(args[0])
-    title = parser.get_text_expanded(args[2])
+    name = parser.get_text_expanded(args[1])
+    title = parser.get_text_expanded(args[3])
     def f(parser, options, position):
         parms = parser.parms
         envs = [defs.Environ(parms, name, args='O', repl=h_theorem(title))]
